@@ -15,6 +15,7 @@ OBLIGATIONS = [
     "Pkgcore.C21.cfg_number_fresh_or_reused",
     "Pkgcore.C21.install_trigger_sound",
     "Pkgcore.C21.protected_never_overwritten",
+    "Pkgcore.C21.protected_never_overwritten_through_links",
     "Pkgcore.C21.update_written_beside",
     "Pkgcore.C21.uninstall_keeps_modified",
     "Pkgcore.C21.uninstall_removes_the_rest",
